@@ -262,3 +262,286 @@ Proof.
   - left. now rewrite H.
   - rewrite H. destruct c; [now left|right; eauto].
 Qed.
+
+(** * parsing what [print] prints gives the denotation: for every expression tree *)
+Definition wf_ident (n : ident) : Prop := n <> [] /\ Forall (fun b => delim_token b = None) n.
+Fixpoint wf_expr (e : pexpr) : Prop :=
+  match e with
+  | XSeg n => wf_ident n
+  | XSeq a b | XAlt a b => wf_expr a /\ wf_expr b
+  end.
+
+Fixpoint ptoks (nested : bool) (e : pexpr) : list token :=
+  match e with
+  | XSeg n => [TIdent n]
+  | XSeq a b => ptoks true a ++ TSlash :: ptoks true b
+  | XAlt a b =>
+      if nested then TOpen :: ptoks false a ++ TSemi :: ptoks false b ++ [TClose]
+      else ptoks false a ++ TSemi :: ptoks false b
+  end.
+
+(** ** lexer *)
+Lemma lex_go_run n : Forall (fun b => delim_token b = None) n ->
+  forall rest acc, lex_go (n ++ rest) acc = lex_go rest (rev n ++ acc).
+Proof.
+  induction 1 as [|b n Hb _ IH]; intros rest acc; simpl; auto.
+  rewrite Hb. rewrite IH. now rewrite <- app_assoc.
+Qed.
+
+Definition starts_delim (rest : list byte) : Prop :=
+  rest = [] \/ exists d r t, rest = d :: r /\ delim_token d = Some t.
+
+Lemma lex_go_ident n rest : wf_ident n -> starts_delim rest ->
+  lex_go (n ++ rest) [] = TIdent n :: lex_go rest [].
+Proof.
+  intros [Hne Hnd] Hs. rewrite lex_go_run by assumption. rewrite app_nil_r.
+  assert (Hr : rev n <> []) by (intros H; apply Hne; rewrite <- (rev_involutive n), H; reflexivity).
+  destruct Hs as [->|[d [r [t [-> Hd]]]]]; simpl.
+  - unfold flush. destruct (rev n) eqn:E; [congruence|]. rewrite <- E, rev_involutive. reflexivity.
+  - rewrite Hd. unfold flush at 1. destruct (rev n) eqn:E; [congruence|]. rewrite <- E, rev_involutive. reflexivity.
+Qed.
+
+Lemma lex_go_delim d t rest : delim_token d = Some t -> lex_go (d :: rest) [] = t :: lex_go rest [].
+Proof. intros H. simpl. now rewrite H. Qed.
+
+Lemma lex_print : forall e nested rest, wf_expr e -> starts_delim rest ->
+  lex_go (print nested e ++ rest) [] = ptoks nested e ++ lex_go rest [].
+Proof.
+  assert (SD : forall d t r, delim_token d = Some t -> starts_delim (d :: r)).
+  { intros d t r H. right. now exists d, r, t. }
+  induction e as [n|a IHa b IHb|a IHa b IHb]; intros nested rest Hwf Hs; simpl in Hwf.
+  - simpl. now apply lex_go_ident.
+  - destruct Hwf as [Ha Hb]. simpl. rewrite <- !app_assoc.
+    rewrite IHa by (auto; eapply SD; reflexivity).
+    simpl. rewrite IHb by auto. reflexivity.
+  - destruct Hwf as [Ha Hb]. destruct nested; simpl.
+    + rewrite <- !app_assoc. rewrite IHa by (auto; eapply SD; reflexivity).
+      simpl. rewrite <- ?app_assoc. rewrite IHb by (auto; eapply SD; reflexivity).
+      simpl. rewrite <- ?app_assoc. reflexivity.
+    + rewrite <- !app_assoc. rewrite IHa by (auto; eapply SD; reflexivity).
+      simpl. rewrite IHb by auto. reflexivity.
+Qed.
+
+(** ** cross products *)
+Lemma cross_cons x a b : cross (x :: a) b = map (app x) b ++ cross a b.
+Proof. reflexivity. Qed.
+Lemma cross_app a1 a2 b : cross (a1 ++ a2) b = cross a1 b ++ cross a2 b.
+Proof. unfold cross. apply flat_map_app. Qed.
+Lemma cross_map x b c : cross (map (app x) b) c = map (app x) (cross b c).
+Proof.
+  induction b as [|y b IH]; [reflexivity|].
+  change (map (app x) (y :: b)) with ((x ++ y) :: map (app x) b).
+  rewrite !cross_cons, map_app, IH. f_equal.
+  rewrite map_map. apply map_ext. intros s. now rewrite app_assoc.
+Qed.
+Lemma cross_assoc a b c : cross (cross a b) c = cross a (cross b c).
+Proof.
+  induction a as [|x a IH]; [reflexivity|].
+  rewrite !cross_cons. rewrite cross_app, IH, cross_map. reflexivity.
+Qed.
+Lemma cross_single ps n : cross ps [[n]] = map (fun p => p ++ [n]) ps.
+Proof. induction ps as [|p ps IH]; [reflexivity|]. rewrite cross_cons. simpl. now rewrite IH. Qed.
+Lemma cross_nonempty a b : a <> [] -> b <> [] -> cross a b <> [].
+Proof. destruct a as [|x a], b as [|y b]; try congruence. intros _ _. rewrite cross_cons. simpl. discriminate. Qed.
+Lemma denote_nonempty e : denote e <> [].
+Proof.
+  induction e as [n|a IHa b IHb|a IHa b IHb]; simpl.
+  - discriminate.
+  - now apply cross_nonempty.
+  - destruct (denote a); [congruence|discriminate].
+Qed.
+
+(** what parsing the tokens of [e] in sequence position does to the paths of the current
+    PathMatchExpression *)
+Fixpoint extend (ps : paths) (e : pexpr) : paths :=
+  match e with
+  | XSeg n => add_segment ps n
+  | XSeq a b => extend (extend ps a) b
+  | XAlt a b => expand_paths ps (denote (XAlt a b))
+  end.
+
+Lemma extend_spec : forall e ps, extend ps e = match ps with [] => denote e | _ => cross ps (denote e) end.
+Proof.
+  induction e as [n|a IHa b IHb|a IHa b IHb]; intros ps; simpl.
+  - destruct ps; [reflexivity|]. unfold add_segment. now rewrite cross_single.
+  - rewrite IHb, IHa. destruct ps as [|p ps].
+    + destruct (denote a) eqn:E; [exfalso; now apply (denote_nonempty a)|]. reflexivity.
+    + destruct (cross (p :: ps) (denote a)) eqn:E.
+      * exfalso. apply (cross_nonempty (p :: ps) (denote a)); [discriminate|apply denote_nonempty|exact E].
+      * rewrite <- E. apply cross_assoc.
+  - unfold expand_paths. destruct (denote a ++ denote b) eqn:E.
+    + exfalso. apply (denote_nonempty (XAlt a b)). exact E.
+    + destruct ps; reflexivity.
+Qed.
+
+(** ** fuel is monotone once it suffices *)
+Lemma parsex_fuel_mono : forall f toks E split r,
+  parsex f toks E split = r -> r <> PErr PFuel -> parsex (S f) toks E split = r.
+Proof.
+  induction f as [|f IH]; intros toks E split r H Hr; [simpl in H; congruence|].
+  destruct toks as [|t tl]; [exact H|].
+  destruct t.
+  - change (parsex (S (S f)) (TOpen :: tl) E split) with
+      (match parsex (S f) tl [] None with
+       | PErr e => PErr e
+       | POk (nested, closed, rest) =>
+           if negb closed then PErr PBadRequest
+           else match split with
+                | Some sp => parsex (S f) rest E (Some (expand_paths sp nested))
+                | None => parsex (S f) rest (expand_paths E nested) None
+                end
+       end).
+    change (parsex (S f) (TOpen :: tl) E split) with
+      (match parsex f tl [] None with
+       | PErr e => PErr e
+       | POk (nested, closed, rest) =>
+           if negb closed then PErr PBadRequest
+           else match split with
+                | Some sp => parsex f rest E (Some (expand_paths sp nested))
+                | None => parsex f rest (expand_paths E nested) None
+                end
+       end) in H.
+    destruct (parsex f tl [] None) as [[[nested closed] rest]|e] eqn:E1.
+    + rewrite (IH tl [] None _ E1) by discriminate.
+      destruct closed; simpl negb in H |- *; cbv iota in H |- *; [|exact H].
+      destruct split; apply IH; auto.
+    + assert (e <> PFuel) by (intros ->; apply Hr; now rewrite <- H).
+      rewrite (IH tl [] None _ E1) by congruence. exact H.
+  - apply (IH tl (finish E split) (Some []) r H Hr).
+  - exact H.
+  - apply (IH tl E split r H Hr).
+  - destruct split; apply IH; auto.
+Qed.
+
+Lemma parsex_fuel_mono_le f f' toks E split r : (f <= f')%nat ->
+  parsex f toks E split = r -> r <> PErr PFuel -> parsex f' toks E split = r.
+Proof. induction 1; auto. intros. apply parsex_fuel_mono; auto. Qed.
+
+(** ** the parser on printed expressions *)
+Fixpoint cs (e : pexpr) : nat :=
+  match e with XSeg _ => 1 | XSeq a b => cs a + 1 + cs b | XAlt _ _ => 1 end.
+Fixpoint ca (e : pexpr) : nat :=
+  match e with XAlt a b => ca a + 1 + ca b | _ => cs e end.
+(** fuel that must be left after the tokens of [e] (the nested activation of a group needs
+    the group's own cost) *)
+Fixpoint reqs (e : pexpr) : nat :=
+  match e with
+  | XSeg _ => 0
+  | XSeq a b => Nat.max (reqs a) (reqs b)
+  | XAlt a b => ca (XAlt a b) + 1 + Nat.max (reqa a) (reqa b)
+  end
+with reqa (e : pexpr) : nat :=
+  match e with
+  | XAlt a b => Nat.max (reqa a) (reqa b)
+  | XSeg _ => 0
+  | XSeq a b => Nat.max (reqs a) (reqs b)
+  end.
+Lemma reqa_nonalt e : (forall a b, e <> XAlt a b) -> reqa e = reqs e.
+Proof. destruct e; intros H; try reflexivity. exfalso; eapply H; eauto. Qed.
+
+Definition cur_empty (E : paths) (split : option paths) : Prop :=
+  match split with Some sp => sp = [] | None => E = [] end.
+
+Lemma parsex_open f tl E split :
+  parsex (S f) (TOpen :: tl) E split =
+  match parsex f tl [] None with
+  | PErr e => PErr e
+  | POk (nested, closed, rest) =>
+      if negb closed then PErr PBadRequest
+      else match split with
+           | Some sp => parsex f rest E (Some (expand_paths sp nested))
+           | None => parsex f rest (expand_paths E nested) None
+           end
+  end.
+Proof. reflexivity. Qed.
+
+Definition seq_stmt (e : pexpr) : Prop :=
+  forall k E split f, (reqs e <= f)%nat ->
+    parsex (cs e + f) (ptoks true e ++ k) E split =
+    match split with
+    | Some sp => parsex f k E (Some (extend sp e))
+    | None => parsex f k (extend E e) None
+    end.
+Definition alt_stmt (e : pexpr) : Prop :=
+  forall k E split f, cur_empty E split -> (reqa e <= f)%nat ->
+    exists E' split', parsex (ca e + f) (ptoks false e ++ k) E split = parsex f k E' split'
+                      /\ finish E' split' = finish E split ++ denote e.
+
+Lemma alt_of_seq e : (forall a b, e <> XAlt a b) -> seq_stmt e -> alt_stmt e.
+Proof.
+  intros Hna Hseq k E split f Hc Hf.
+  assert (Hp : ptoks false e = ptoks true e) by (destruct e; try reflexivity; exfalso; eapply Hna; eauto).
+  assert (Hca : ca e = cs e) by (destruct e; try reflexivity; exfalso; eapply Hna; eauto).
+  rewrite reqa_nonalt in Hf by assumption.
+  rewrite Hp, Hca, Hseq by assumption.
+  destruct split as [sp|]; simpl in Hc; subst.
+  - exists E, (Some (extend [] e)). split; auto. simpl. rewrite extend_spec. now rewrite app_nil_r.
+  - exists (extend [] e), None. split; auto. simpl. now rewrite extend_spec.
+Qed.
+
+Lemma parse_stmts : forall e, seq_stmt e /\ alt_stmt e.
+Proof.
+  induction e as [n|a [IHas IHaa] b [IHbs IHba]|a [IHas IHaa] b [IHbs IHba]].
+  - assert (S : seq_stmt (XSeg n)).
+    { intros k E split f Hf. simpl. destruct split; reflexivity. }
+    split; auto. apply alt_of_seq; auto. discriminate.
+  - assert (S : seq_stmt (XSeq a b)).
+    { intros k E split f Hf. simpl in Hf. simpl ptoks. rewrite <- app_assoc. simpl app.
+      replace (cs (XSeq a b) + f)%nat with (cs a + S (cs b + f))%nat by (simpl; lia).
+      rewrite IHas by lia.
+      destruct split as [sp|].
+      - change (parsex (S (cs b + f)) (TSlash :: ptoks true b ++ k) E (Some (extend sp a)))
+          with (parsex (cs b + f) (ptoks true b ++ k) E (Some (extend sp a))).
+        rewrite IHbs by lia. reflexivity.
+      - change (parsex (S (cs b + f)) (TSlash :: ptoks true b ++ k) (extend E a) None)
+          with (parsex (cs b + f) (ptoks true b ++ k) (extend E a) None).
+        rewrite IHbs by lia. reflexivity. }
+    split; auto. apply alt_of_seq; auto. discriminate.
+  - assert (A : alt_stmt (XAlt a b)).
+    { intros k E split f Hc Hf. simpl in Hf. simpl ptoks. rewrite <- app_assoc. simpl app.
+      replace (ca (XAlt a b) + f)%nat with (ca a + S (ca b + f))%nat by (simpl; lia).
+      destruct (IHaa (TSemi :: ptoks false b ++ k) E split (S (ca b + f)) Hc ltac:(lia)) as [E1 [s1 [H1 F1]]].
+      rewrite H1.
+      change (parsex (S (ca b + f)) (TSemi :: ptoks false b ++ k) E1 s1)
+        with (parsex (ca b + f) (ptoks false b ++ k) (finish E1 s1) (Some [])).
+      destruct (IHba k (finish E1 s1) (Some []) f eq_refl ltac:(lia)) as [E2 [s2 [H2 F2]]].
+      exists E2, s2. split; auto. rewrite F2. simpl. rewrite app_nil_r, F1. now rewrite app_assoc. }
+    split; auto.
+    (* in sequence position: the parenthesised group *)
+    intros k E split f Hf.
+    assert (Hp : ptoks true (XAlt a b) = TOpen :: ptoks false (XAlt a b) ++ [TClose])
+      by (simpl; rewrite <- app_assoc; reflexivity).
+    rewrite Hp.
+    simpl app. rewrite <- app_assoc. simpl app.
+    change (cs (XAlt a b) + f)%nat with (S f).
+    assert (Hf' : (ca (XAlt a b) + 1 + reqa (XAlt a b) <= f)%nat) by exact Hf.
+    destruct (A (TClose :: k) [] None (f - ca (XAlt a b))%nat eq_refl ltac:(lia))
+      as [E1 [s1 [H1 F1]]].
+    replace (ca (XAlt a b) + (f - ca (XAlt a b)))%nat with f in H1 by lia.
+    destruct (f - ca (XAlt a b))%nat as [|f0] eqn:Ef; [lia|].
+    change (parsex (S f0) (TClose :: k) E1 s1) with (POk (finish E1 s1, true, k)) in H1.
+    simpl ptoks in H1. rewrite parsex_open.
+    rewrite H1. rewrite F1. simpl negb. cbv iota. reflexivity.
+Qed.
+
+Theorem parse_print_denote e : wf_expr e -> parse_path_expr (print_top e) = POk (denote e).
+Proof.
+  intros Hwf. unfold parse_path_expr, print_top, lex.
+  assert (Hlex : lex_go (print false e) [] = ptoks false e).
+  { rewrite <- (app_nil_r (print false e)). rewrite lex_print; auto; [|now left]. simpl. now rewrite app_nil_r. }
+  rewrite Hlex.
+  set (toks := ptoks false e).
+  (* with generous fuel *)
+  destruct (proj2 (parse_stmts e) [] [] None (S (reqa e)) eq_refl ltac:(lia)) as [E1 [s1 [H1 F1]]].
+  rewrite app_nil_r in H1. change (parsex (S (reqa e)) [] E1 s1) with (POk (finish E1 s1, false, @nil token)) in H1.
+  rewrite F1 in H1. simpl in H1.
+  (* the fuel actually used is enough *)
+  destruct (parsex_enough_fuel (S (length toks)) toks [] None ltac:(lia)) as [Herr|[ps [c [r [Hok _]]]]].
+  - exfalso.
+    pose proof (parsex_fuel_mono_le _ (Nat.max (S (length toks)) (ca e + S (reqa e))) _ _ _ _ (Nat.le_max_l _ _) Herr ltac:(discriminate)) as M1.
+    pose proof (parsex_fuel_mono_le _ (Nat.max (S (length toks)) (ca e + S (reqa e))) _ _ _ _ (Nat.le_max_r _ _) H1 ltac:(discriminate)) as M2.
+    subst toks. congruence.
+  - pose proof (parsex_fuel_mono_le _ (Nat.max (S (length toks)) (ca e + S (reqa e))) _ _ _ _ (Nat.le_max_l _ _) Hok ltac:(discriminate)) as M1.
+    pose proof (parsex_fuel_mono_le _ (Nat.max (S (length toks)) (ca e + S (reqa e))) _ _ _ _ (Nat.le_max_r _ _) H1 ltac:(discriminate)) as M2.
+    subst toks. rewrite M1 in M2. inversion M2; subst. rewrite Hok. reflexivity.
+Qed.
